@@ -973,6 +973,23 @@ rightmost_power(Term, FinalTerm, Xs) :-
     ;  Xs = [], FinalTerm = Term
     ).
 
+:- non_counted_backtracking exclude_variables/3.
+
+% the witness variables are the free variables that are not bound by ^
+exclude_variables([], _, []).
+exclude_variables([V|Vs], Es, Ws) :-
+    (  variable_occurs(V, Es) -> Ws = Ws0
+    ;  Ws = [V|Ws0]
+    ),
+    exclude_variables(Vs, Es, Ws0).
+
+:- non_counted_backtracking variable_occurs/2.
+
+variable_occurs(V, [E|Es]) :-
+    (  V == E -> true
+    ;  variable_occurs(V, Es)
+    ).
+
 :- non_counted_backtracking findall_with_existential/5.
 
 findall_with_existential(Template, Goal, PairedSolutions, Witnesses0, Witnesses) :-
@@ -981,7 +998,7 @@ findall_with_existential(Template, Goal, PairedSolutions, Witnesses0, Witnesses)
        (  Goal1 = _ ^ _  ) ->
        rightmost_power(Goal1, Goal2, ExistentialVars0),
        term_variables(ExistentialVars0, ExistentialVars),
-       lists:append(Witnesses0, Witnesses, ExistentialVars),
+       exclude_variables(Witnesses0, ExistentialVars, Witnesses),
        expand_goal(M:Goal2, M, Goal3),
        findall(Witnesses-Template, Goal3, PairedSolutions)
     ;  Witnesses = Witnesses0,
